@@ -113,4 +113,50 @@ CHECKS["C18"] = {
     ],
 }
 
+CHECKS["C07"] = {
+    "pkg": "./checks/c07",
+    "level": "exploration",
+    "rule": "api: rapid state machine on a real account.Manager over a stable base block whose accounts already hold balance / code / trie-backed storage / assets / equity / profile / signers / votes: "
+            "every SafeAccount setter with generated arguments on 4 accounts (in the shapes real callers produce: state and supply only of existing assets, candidate state only of existing keys, "
+            "code only on code-less accounts, self-destruct only on contracts), Snapshot (depth <= 5), RevertToSnapshot(any live id). Oracles: after each revert the observable dump of all accounts over the key universe "
+            "equals the dump at the snapshot and the journal has its old length, no panic; at the end a second real manager that executed only the surviving operations must agree on raw logs, state, "
+            "merged+finalised logs, version root and finalised dumps incl. roots and version records. non-trivial = nesting depth >= 2 and a revert after (an earlier revert followed by further writes); distinct by history digest. "
+            "evm: generated EVM scenarios (see C16) executed through a recording vm.AccountManager proxy that truncates its record at every RevertToSnapshot; a manager replaying only the surviving operations "
+            "must agree on raw logs, state, finalised logs, roots and version root; non-trivial = nesting >= 2, a revert that undid writes and a write after a revert.",
+    "level_text": "Model-based generated histories with two oracles (stack of state dumps; differential against a manager that never executed the reverted operations), plus the same comparison inside real EVM executions, "
+                  "miner-side discards and block redo. Exploration: history length and the 4-account / 15-key universe are generator bounds.",
+    "level_note": "Trusted: the dump (public getters + verif-tagged raw account export); events are excluded (the statement does not list them and undo deliberately keeps them); "
+                  "empty asset metadata is treated as absent (indistinguishable once stored).",
+    "technique": "rapid stateful testing with a snapshot-stack oracle and a differential reference execution",
+    "assumptions": ["SetCandidateState is only used on keys that exist (unregister / refund)", "an empty code hash and the hash of empty code both mean no code"],
+    "units": [
+        {"name": "api", "test": "TestC07API", "quick": {"checks": 4000, "shards": 4, "timeout": 900}, "thorough": {"checks": 40000, "shards": 16, "timeout": 3000}},
+        {"name": "evm", "test": "TestC07EVM", "quick": {"checks": 2500, "shards": 4, "timeout": 900}, "thorough": {"checks": 25000, "shards": 16, "timeout": 3000}},
+    ],
+}
+
+CHECKS["C16"] = {
+    "pkg": "./checks/c16",
+    "level": "exploration",
+    "rule": "programs: three contract slots (two with trie-backed storage) get generated code: grammar programs (arithmetic / memory / SSTORE on 4 colliding keys / LOG0-4 / CALL, CALLCODE, DELEGATECALL, STATICCALL "
+            "to self, the other slots, precompiles 1,2,4,5,9, an EOA and an absent address with generated value and gas / CREATE with 13 tiny init codes incl. code-size boundary 24576 and 24577 / SELFDESTRUCT to self or other / "
+            "endings STOP, RETURN, REVERT, INVALID, stack underflow, out-of-gas loop, forward jumps), the same with 1-3 bytes damaged, or arbitrary bytes; then 1..3 entries: Call / StaticCall / Create (constructor = generated program, "
+            "or returning one, or a tiny init code) / precompile with arbitrary input / plain value call, gas 0..3M, values 0..100000. Oracles per entry: no panic, gas left <= supplied, depth <= 1025 (tracer), "
+            "static => nothing journaled but writes of the present value and failure events, failed => nothing survives but one failure event; per case: second un-instrumented run gives identical results, logs and state; "
+            "journal == replay of surviving operations (raw and finalised, roots, version root). non-trivial = a revert undid writes or reverts with nesting >= 2; distinct by case digest. "
+            "depth: self-recursive contract with 2^40..2^62 gas reaches exactly depth 1025 and terminates.",
+    "level_text": "Grammar-based and raw generated bytecode against six executable oracles, thousands of scenarios per run, plus coverage-guided native fuzzing of raw bytecode with the same oracles inside the target (thorough). "
+                  "Exploration: program size (<= ~150 bytes), three contracts and gas <= 3M bound what is reached.",
+    "level_note": "Trusted: the recording proxy (it mirrors what the journal is supposed to do), the state dump, the EVM context used for direct execution (block 5, fixed hashes). "
+                  "Call depth is counted like the code counts it: 1024 nested frames below the entry frame.",
+    "technique": "rapid grammar-based generation with differential / metamorphic oracles + native go fuzzing",
+    "assumptions": ["gas is bounded by 3M for arbitrary programs so that termination is observable; unbounded gas is only given to the loop-free recursion program",
+                    "the platform's own failure event and writes of an unchanged balance (zero-value transfers) are not state changes"],
+    "units": [
+        {"name": "programs", "test": "TestC16Programs", "quick": {"checks": 3000, "shards": 4, "timeout": 900}, "thorough": {"checks": 30000, "shards": 16, "timeout": 3000}},
+        {"name": "depth", "test": "TestC16Depth", "quick": {"checks": 10, "timeout": 600}, "thorough": {"checks": 60, "timeout": 1800}},
+        {"name": "fuzz", "fuzz": "FuzzBytecode", "test": "FuzzBytecode", "thorough": {"fuzztime": "240s", "workers": 16, "timeout": 900}},
+    ],
+}
+
 NOT_APPLICABLE = {}
